@@ -63,6 +63,15 @@ CHECKS = {
             "ulp below / above them, all probes of a theory in one run, and nf is read from the output alone (active quark rows at LO, "
             "(2,0,1,0) = -beta0(nf) (1,0,0,0)); TLC recomputes nf and beta0 for each recorded probe.",
             "Trusted: TLC, numpy, math.nextafter. Non-monotone matching scales are outside the domain (eko rejects them).", "DESIGN.md 7/C06"),
+    "C20": ("model_checking",
+            "TLC exhaustive on the heap model of compatibility.update / Runner over all card shapes + every shape replayed on real dicts "
+            "(content and object-identity snapshots) + TLC trace validation of the updated-card projection",
+            "TLC proves CallerHeapUnchanged, UpdateIdempotent and EchoExact on a heap of caller objects with identity for all 12 960 card "
+            "shapes (FNS x NfFF x optional keys absent/None/set x QED x alphaqed x target spelling); every TLC-emitted shape is instantiated, "
+            "compatibility.update is applied twice, a seed-rotated subset goes through Runner construction, two get_result calls and a second "
+            "construction from the same objects; TLC accepts a line only if the observed projection of the updated cards equals the one the "
+            "heap model computes and all recorded snapshot comparisons hold.",
+            "Trusted: TLC, python dict equality, id() for identity.", "DESIGN.md 7/C20"),
 }
 
 PENDING = {}
